@@ -41,7 +41,8 @@ CLAUSES (statement / quantifier -> facet : deciding assertion -> populated class
                       max-cn-differs-between-frames lists-directed lists-symmetric
   neighbour definitions (N-nearest, cut-off, Voronoi) -> libneigh : files of the library's own writers -> writer-*
   weight file         none / all equal / random positive / integer text; rows of the weight file shuffled independently;
-                      weights follow the entry order of the row -> vectors() -> w-* weighted-rows-not-id-sorted
+                      weights follow the entry order of the row; "no weights" as omitted / None / "" -> vectors() -> w-*
+                      weighted-rows-not-id-sorted no-weights-as-*
   degree l            2..12, python int / numpy int -> all -> l2..l12 l-odd l-even l-as-*
   q_lm                weight-normalised mean of Y_lm over minimum-image bonds -> vectors(): smallqlm, qlm_Qlm()[0] (three
                       evaluations) within eps
@@ -60,7 +61,9 @@ CLAUSES (statement / quantifier -> facet : deciding assertion -> populated class
   tabulated crystals  crystals: fcc hcp bcc8 bcc14 sc ico x l4 l6 x bulk / rotated cluster
   histories           calls (two degrees alternating, Wignerindex direct), history (all six methods twice in a drawn
                       order, second object of the same degree and possibly the same shape, every result kept alive and
-                      re-compared bit for bit after every step) -> same-shape other-shape first-* *-twice-same-flag *-both-flags
+                      re-compared bit for bit after every step) -> same-shape other-shape first-* *-twice-same-flag *-both-flags;
+                      qlm: a second boo_3d on the SAME Snapshots object after its positions were permuted in place
+                      -> snapshots-mutated-in-place
   Weak before round 3 and closed now: sizes stopped at N = 30 / cn = 14 (-> sizes, sizes_large); the order of the entries
   inside a row was distance or random only (-> order-id, order-rev-id); results were compared and discarded at once (->
   kept-alive checks in qlm / sij / w_cap / corr / history); every method was evaluated once per flag (-> second / third
@@ -96,7 +99,7 @@ RULE = ("3D configurations on a jittered odd fractional grid (N 2..30; facet siz
         "particle 1 on a single bond, cn 29..33 / 49..51 / 63..65 in facet sizes, shuffled rows, per-frame lists) x weights "
         "{none, all equal, random positive, integer text} x l 2..12 (int / numpy int) x local / coarse-grained x Nmax {default, "
         "exact, 200, truncating} x mask as array / list / tuple / float / bool; every method twice per object, all results kept "
-        "alive and re-compared; reference crystals fcc / hcp / bcc(8,14) / sc / icosahedron as rotated open clusters and "
+        "alive and re-compared; a second object on the same snapshots after an in-place change of the positions; reference crystals fcc / hcp / bcc(8,14) / sc / icosahedron as rotated open clusters and "
         "periodic bulk; neighbour files produced by the library's own N-nearest / cut-off / Voronoi writers.  non-trivial = "
         "coordination differs between particles, or weights non-uniform, or >= 2 frames (crystal facet: a rotated cluster or "
         "a periodic bulk crystal)")
@@ -430,7 +433,8 @@ def case_st(draw, frames=(1, 3), ls=(2, 3, 4, 5, 6, 6, 7, 8, 9, 10, 11, 12, 6, 4
         "idfmt": draw(pick(ID_FORMATS)) if reprs else "%d",
         "ppp_repr": draw(pick(PPP_REPRS)) if reprs else "int64",
         "int_repr": draw(st.sampled_from(["int", "int", "np.int64", "np.int32"])) if reprs else "int",
-        "intgrid": intgrid, "types": types, "order": order,
+        "intgrid": intgrid, "types": types, "order": order, "nowf": draw(pick(["omit", "omit", "None", "empty"])) if reprs else "omit",
+        "inplace": bool(draw(pick(range(5))) == 3),
         "meta": {"g": g, "amp": amp, "mode": mode, "outside": bool(outside), "kind": kind, "seed": seed, "compact": compact},
     }
 
@@ -542,6 +546,8 @@ def make_boo(case, nfile, wfile, l=None):
         kw["Nmax"] = _as_repr(case["Nmax"], ir)
     if wfile is not None:
         kw["weightsfile"] = wfile
+    elif case.get("nowf", "omit") != "omit":
+        kw["weightsfile"] = {"None": None, "empty": ""}[case["nowf"]]   # "no weights" spelt as None or as ""
     return boo_3d(snaps, l=_as_repr(case["l"] if l is None else l, ir), neighborfile=nfile,
                   ppp=ppp_as(case["ppp"], case.get("ppp_repr", "int64")), **kw), snaps
 
@@ -627,6 +633,8 @@ def common_tags(case, ref):
             "cg" if case["cg"] else "local", "sheared" if case.get("sheared") else "fixed-cell", f"N{min(N, 5)}",
             "order-" + case.get("order", "asis"), "idfmt" + case.get("idfmt", "%d"), "ppp-as-" + case.get("ppp_repr", "int64"),
             "l-as-" + case.get("int_repr", "int"), "types-" + case.get("types", "ones"), "l-odd" if case["l"] % 2 else "l-even"]
+    if case["wmode"] == "none":
+        tags.append("no-weights-as-" + case.get("nowf", "omit"))
     if kind in ("tri", "general"):
         H = case["cell"]["H"]
         tl = (H - np.diag(np.diag(H))).ravel()
@@ -718,6 +726,21 @@ def check_qlm(case):
     verify_ql(boo, l, q, e, False)
     for name, now, then in held:
         same_bits(name, now, then)
+    if case.get("inplace") and N >= 3:
+        # state carried between calls (EXTENSION_1 class 3): the SAME snapshot objects with other contents - the particles'
+        # coordinates are permuted in place - then a new boo_3d on the same Snapshots object and the same files: every
+        # value must be the reference for the contents at call time (no memo keyed on object identity)
+        perm = np.roll(np.arange(N), 1)
+        case2 = dict(case, pos=[p[perm].copy() for p in case["pos"]])
+        for snap, p2 in zip(boo.snapshots.snapshots, case2["pos"]):
+            snap.positions[...] = p2.astype(snap.positions.dtype)
+        ref2 = reference(case2, eff)
+        kw = {"Nmax": int(case["Nmax"])} if case["Nmax"] is not None else {}
+        if wfile is not None:
+            kw["weightsfile"] = wfile
+        boo2 = boo_3d(boo.snapshots, l=int(l), neighborfile=nfile, ppp=np.array(case["ppp"]), **kw)
+        vectors(boo2, ref2, T, N, l)
+        tags.append("snapshots-mutated-in-place")
     return {"nontrivial": nontrivial(case, ref), "tags": tags}
 
 
